@@ -175,7 +175,16 @@ def build_c14(rng, tier):
             'pc': rng.random() < 0.25,
             'stab': rng.random() < 0.3 and inst['twopl']}
     limit = rng.choice([None] + LIMITS + LIMITS)
-    ops = [['solve', {'timeLimit': limit}], ['get_results'],
+    skw = {'timeLimit': limit}
+    if rng.random() < 0.25:
+        skw['positional'] = True     # solve(False, limit)
+    if limit is not None and limit <= 3600 and rng.random() < 0.15:
+        # numeric types other than int/float are legal limits too
+        skw['tl_type'] = rng.choice(['int64', 'float32', 'float64',
+                                     'int32'])
+        if skw['tl_type'].startswith('int'):
+            skw['timeLimit'] = limit = max(1, int(limit))
+    ops = [['solve', skw], ['get_results'],
            ['get_results_short'], ['get_results_long']]
     sc = lp_base(rng, inst, opts, ops=ops, policy='uniform')
     sc['limit'] = limit
@@ -475,6 +484,9 @@ def gen_argv(params):
         groups = [[GEN_ALIASES[g[0]]] + g[1:]
                   if g[0] in GEN_ALIASES and r.random() < 0.5 else g
                   for g in groups]
+        groups = [[g[0] + '=' + g[1]] if len(g) == 2 and len(g[0]) > 2 and
+                  not g[1].startswith('-') and r.random() < 0.3 else g
+                  for g in groups]
     out = []
     for g in groups:
         out += g
@@ -559,7 +571,10 @@ def gen_base(rng, params, sessions=None, spy_ties=False):
           'clock_seed': rng.randrange(2 ** 31)}
     x = rng.random()
     if x < 0.15:
-        sc['out_rel'] = 'deep/er/out'      # nested output directory
+        # nested output directory / unusual but legal characters in its name
+        sc['out_rel'] = rng.choice(['deep/er/out', 'deep/er/out',
+                                    'out %d dir', '100%', 'o.u.t',
+                                    "it's", 'a=b', 'out-1', '-out'][:8])
     elif x < 0.30:
         sc['precreate_out'] = True         # output directory exists already
         if rng.random() < 0.5:             # ... with files of an earlier run
@@ -587,8 +602,13 @@ def build_c08(rng, tier):
         sc = gen_base(rng, p)
         sc['reach'] = True
         return sc
-    if rng.random() < 0.004:
-        return gen_base(rng, huge_params(rng, twopl=rng.random() < 0.7))
+    if rng.random() < 0.02:
+        p = huge_params(rng, twopl=rng.random() < 0.7)
+        if p['mp'] in ('ha',):
+            p['twopl'] = False
+        if p['mp'] in ('sm', 'hr'):
+            p['twopl'] = True
+        return gen_base(rng, p)
     p = gen_params(rng)
     if p['mp'] == 'spa' and rng.random() < 0.5:
         # wider project / lecturer counts: every relation of n2 mod n3
@@ -603,40 +623,51 @@ def build_c08(rng, tier):
 
 
 def huge_params(rng, twopl=True):
-    """magnitudes far beyond the small shapes: > 1000 first-side agents, or
-    > 64 lecturers (generator only, no solve)"""
-    if rng.random() < 0.5:
-        mp = rng.choice(['hr', 'spa'])
-        p = gen_params(rng, mp=mp, twopl=twopl)
-        p['n1'] = rng.randint(1001, 1200)
-        p['n2'] = rng.randint(1, 3)
-        if mp == 'spa':
-            p['n3'] = rng.randint(1, 2)
-            p['luq'] = p['n1']
-            p['lt'] = p['llq'] = None
-        p['pmax'] = rng.randint(1, p['n2'])
-        p['pmin'] = rng.randint(1, p['pmax'])
-        p['uq'] = p['n1']
-        p['lq'] = None
-        p['t2'] = rng.choice([None, 0, 0.3])
-    else:
-        p = gen_params(rng, mp='spa', twopl=twopl)
-        p['n3'] = rng.randint(65, 90)
-        p['n2'] = rng.randint(p['n3'], p['n3'] + 20)
-        p['n1'] = rng.randint(3, 12)
-        p['pmax'] = rng.randint(2, 6)
-        p['pmin'] = rng.randint(1, p['pmax'])
-        p['uq'] = p['n2'] + rng.randint(0, 5)
-        p['lq'] = None
-        p['luq'] = p['n3'] + rng.randint(0, 9)
-        p['lt'] = p['llq'] = None
+    """Size sweep (generator only, nothing is solved): one of the agent counts
+    is drawn log-uniformly from 13..1500, so that thresholds such as 49, 64,
+    256, 1000 fall inside the sampled range; lists can be hundreds of entries
+    long on either side."""
+    import math
+    mp = rng.choice(['ha', 'sm', 'hr', 'spa', 'spa'])
+    p = gen_params(rng, mp=mp, twopl=twopl)
+    big = int(round(math.exp(rng.uniform(math.log(13), math.log(1500)))))
+    dim = rng.choice(['n1', 'n2', 'n3'] if mp == 'spa' else
+                     (['n1'] if mp == 'sm' else ['n1', 'n2']))
+    p['n1'] = rng.randint(1, 6)
+    if mp != 'sm':
+        p['n2'] = rng.randint(1, 6)
+    if mp == 'spa':
+        p['n3'] = rng.randint(1, 4)
+    p[dim] = big
+    n2 = p.get('n2', p['n1']) if mp != 'sm' else p['n1']
+    if mp == 'spa' and dim == 'n3':
+        p['n2'] = rng.randint(big, big + 20)      # every lecturer gets a project
+        n2 = p['n2']
+    # list lengths: short, or as long as the other side allows (<= 400)
+    p['pmax'] = rng.choice([rng.randint(1, min(n2, 6)),
+                            rng.randint(1, min(n2, 400))])
+    p['pmin'] = rng.choice([1, p['pmax'], rng.randint(1, p['pmax'])])
+    if mp != 'sm':
+        p['uq'] = n2 * rng.choice([1, 1, 2, 3]) + rng.choice([0, 0, 1, 3])
+        p['lq'] = rng.choice([None, 0, n2, rng.randint(0, p['uq'])])
+    if mp == 'spa':
+        n3 = p['n3']
+        p['luq'] = max(1, n3 * rng.choice([1, 1, 2, 3]) + rng.choice([0, 0, 2]))
+        p['lt'] = rng.choice([None, 0, min(n3, p['luq']),
+                              rng.randint(0, p['luq'])])
+        p['llq'] = rng.choice([None, 0]) if not p['lt'] else \
+            rng.choice([None, 0, rng.randint(0, p['lt'])])
     p['numinst'] = 1
     return p
 
 
 def build_c12(rng, tier):
-    if rng.random() < 0.004:
-        return gen_base(rng, huge_params(rng))
+    if rng.random() < 0.02:
+        p = huge_params(rng)
+        if p['mp'] == 'ha':
+            p['mp'] = 'hr'
+            p['twopl'] = True
+        return gen_base(rng, p)
     mp = rng.choice(['sm', 'hr', 'spa', 'spa'])
     p = gen_params(rng, mp=mp, twopl=True)
     if mp == 'spa' and rng.random() < 0.5:
@@ -677,9 +708,28 @@ def build_c13_huge(rng):
     return gen_base(rng, p, sessions=sessions, spy_ties=True)
 
 
+def build_c13_sweep(rng):
+    p = huge_params(rng, twopl=rng.random() < 0.8)
+    mp = p['mp']
+    if mp == 'ha':
+        p['twopl'] = False
+    if mp in ('sm', 'hr'):
+        p['twopl'] = True
+    p['t1'] = rng.choice([.3, .5, .7, 1])
+    if mp != 'ha':
+        p['t2'] = rng.choice([.3, .5, .7, 1])
+    na = 3 if mp == 'spa' else 2
+    sessions = [{'file': '0.txt', 'na': na, 'twopl': bool(p['twopl']),
+                 'opts': {'criteria': []}, 'ops': []}]
+    return gen_base(rng, p, sessions=sessions, spy_ties=True)
+
+
 def build_c13(rng, tier):
-    if rng.random() < 0.002:
+    x = rng.random()
+    if x < 0.002:
         return build_c13_huge(rng)
+    if x < 0.02:
+        return build_c13_sweep(rng)
     mp = rng.choice(['ha', 'sm', 'hr', 'spa', 'spa'])
     p = gen_params(rng, mp=mp, big_lists=True,
                    twopl=(rng.random() < 0.8))
